@@ -272,21 +272,21 @@ func (rc *runCtx) evalCandidatesRepeated(ph phase, raw json.RawMessage, class st
 func (c *checker) writeEvidence(agg *aggregate, rule string, assumptions []string, components map[string][]string) {
 	wall := time.Since(c.t0).Seconds()
 	cov := map[string]interface{}{
-		"evaluations":         agg.Runs,
-		"distinct_nontrivial": agg.Distinct,
-		"rule":                rule,
-		"samples":             agg.Samples,
-		"nontrivial_runs":     agg.NonTrivial,
-		"seeds":               agg.SeedRanges,
-		"sim_steps":           agg.Steps,
-		"sim_time_s":          float64(agg.SimTimeMs) / 1000,
-		"faults_fired":        agg.Fired,
-		"probes":              agg.Probes,
-		"oracle_counts":       agg.Oracles,
-		"components":          components,
-		"phases":              c.phasesRun,
-		"inventory":           inventorySummary(c.rc.info),
-		"uncontrolled_sources": c.rc.info.Inventory["uncontrolled_sources"],
+		"evaluations":                         agg.Runs,
+		"distinct_nontrivial":                 agg.Distinct,
+		"rule":                                rule,
+		"samples":                             agg.Samples,
+		"nontrivial_runs":                     agg.NonTrivial,
+		"seeds":                               agg.SeedRanges,
+		"sim_steps":                           agg.Steps,
+		"sim_time_s":                          float64(agg.SimTimeMs) / 1000,
+		"faults_fired":                        agg.Fired,
+		"probes":                              agg.Probes,
+		"oracle_counts":                       agg.Oracles,
+		"components":                          components,
+		"phases":                              c.phasesRun,
+		"inventory":                           inventorySummary(c.rc.info),
+		"uncontrolled_sources":                c.rc.info.Inventory["uncontrolled_sources"],
 		"instrumentation_fidelity_repo_tests": fidelitySummary(c.rc.info),
 		"known_findings_observed":             c.knownSeen,
 	}
@@ -324,9 +324,15 @@ func (c *checker) writeEvidence(agg *aggregate, rule string, assumptions []strin
 		"wall_s":      wall,
 		"violations":  viol,
 	}
-	os.MkdirAll(verifDir+"/evidence", 0o755)
+	// evidence under /verif/evidence describes runs against /repo itself; a run against
+	// another tree (VERIF_REPO, mutant runs) writes its evidence elsewhere
+	evDir := verifDir + "/evidence"
+	if os.Getenv("VERIF_REPO") != "" {
+		evDir = os.TempDir() + "/verif-mutant-evidence"
+	}
+	os.MkdirAll(evDir, 0o755)
 	b, _ := json.MarshalIndent(ev, "", " ")
-	if err := os.WriteFile(verifDir+"/evidence/"+c.prop+".json", b, 0o644); err != nil {
+	if err := os.WriteFile(evDir+"/"+c.prop+".json", b, 0o644); err != nil {
 		die2("cannot write evidence: %v", err)
 	}
 }
